@@ -243,7 +243,7 @@ def check_decoders(ctx):
     ctx.floor("payload decoders compared with their reference model", n, 6)
 
 
-def check_start_defaults(ctx):
+def check_start_defaults(ctx, rule="C02.B2"):
     """decode(data) without a position decodes from the first byte: every decoder's `start` (and the header decoder's
     `text_pos`) defaults to 0 - the callers that decode a whole message body give no position."""
     repo = ctx.repo
@@ -263,7 +263,7 @@ def check_start_defaults(ctx):
             ctx.touch(m)
             d = dflt.get(pos[0])
             ok = d is not None and isinstance(d, ast.Constant) and d.value == 0 and not isinstance(d.value, bool)
-            ctx.ob("C02.B2", m.qualname, ok, f"`{pos[0]}` defaults to 0" if ok else f"`{pos[0]}` defaults to {norm(d) if d is not None else 'nothing'}: decoding a body without a position skips or misreads its first byte", key="start-default", where=m.where)
+            ctx.ob(rule, m.qualname, ok, f"`{pos[0]}` defaults to 0" if ok else f"`{pos[0]}` defaults to {norm(d) if d is not None else 'nothing'}: decoding a body without a position skips or misreads its first byte", key="start-default", where=m.where)
     ctx.floor("decoders with a start position", n, 8)
 
 
